@@ -560,7 +560,7 @@ class MappedDFTKernel(KernelEvalBase, XCEvalSerializable):
     def to_dict(self):
         return {
             "fevals": [fe.to_dict() for fe in self.fevals],
-            "feature_list": self.feature_list.to_dict(),
+            "feature_list": self.feature_list.as_dict(),
             "mode": self.mode,
         }
 
